@@ -86,8 +86,10 @@ m("c07-unsub-window-uses-sub-window", "C07", P, "        if len(self.factory.win
 m("c08-publish-retry-once", "C08 C13", P, "        request.retries += 1\n", "        request.retries += 1\n        if request.retries > 2: return\n")
 m("c08-no-dup-on-publish-retry", "C08 C12", P, "        self._retryPublish(request, dup=True)\n\n    # --------------------------------------------------------------------------\n\n    def _pubrelError", "        self._retryPublish(request, dup=False)\n\n    # --------------------------------------------------------------------------\n\n    def _pubrelError")
 m("c08-dup-on-subscribe-311", "C08 C18", P, "        if self._version == v31:\n            request.encoded[0] |=  (dup << 3)   # set the dup flag\n        interval = request.interval() + 0.25*len(self.factory.windowSubscribe[self.addr])\n", "        if True:\n            request.encoded[0] |=  (dup << 3)   # set the dup flag\n        interval = request.interval() + 0.25*len(self.factory.windowSubscribe[self.addr])\n")
-m("c08-first-delay-halved", "C08", I, "        self._value = self.initial + (self._k*size)/self.bandwith\n", "        self._value = self.initial/2.0 + (self._k*size)/self.bandwith\n")
+m("c08-first-delay-halved", "C08", I, "        self._value   = self.initial\n        self._jitter", "        self._value   = self.initial/2.0\n        self._jitter", more=[(I, "max(self._value, self.initial + (self._k*size)/self.bandwith)", "max(self._value, self.initial/2.0 + (self._k*size)/self.bandwith)")])
+m("c08-no-monotone-clamp", "C08", I, "        self._value = max(self._value, self.initial + (self._k*size)/self.bandwith)\n", "        self._value = self.initial + (self._k*size)/self.bandwith\n")
 m("c08-linear-k-shrinks", "C08", I, "        self._k    *= self.factor\n", "        self._k    /= self.factor\n")
+m("c08-fresh-jitter-per-retry", "C08", I, "        if self._jitter is None:\n            self._jitter = random.random()\n        return self._value + self._jitter", "        return self._value + random.random()")
 m("c08-exponential-first-below-initial", "C08", I, "        self._value *= self.factor\n        self._value = min(self._value, self.maxDelay)\n        return self._value + random.random()", "        self._value *= self.factor\n        self._value = min(self._value, self.maxDelay)\n        return self._value/4.0 + random.random()")
 m("c08-unsub-retry-reencodes", "C08", P, "        self._retryUnsubscribe(request, dup=True)\n", "        request.topics = request.topics[:1]\n        request.encode()\n        request.encoded = bytearray(request.encoded)\n        self._retryUnsubscribe(request, dup=True)\n")
 
@@ -228,6 +230,7 @@ EQUIVALENT = {
  "c15-deadline-2k": "since fix 27 the next keepalive tick aborts when the previous deadline is still pending: abort still happens at k",
  "c15-first-ping-after-k": "first PINGREQ k seconds after CONNACK still satisfies 'at least every k seconds'",
  "c17-counter-reset-by-buildprotocol": "makeId skips identifiers still in use, so restarting the counter cannot collide",
+ "c08-linear-k-shrinks": "since fix 32 the delay is clamped to the previous one: a shrinking K gives constant gaps, which the statement allows",
  "c20-keepalive-65536": "encode16Int(65536) raises ValueError inside the same try block: still rejected atomically",
 }
 for _n in EQUIVALENT:
